@@ -44,6 +44,11 @@ def gvAsSym (fname : Name) (params : Node) : R Node :=
       pure (if gv then .loadList n p (mapLast symToGv ops) else params)
   | _ => .error .type
 
+/-- name of the last operand (= first argument) after gv_as_sym: `operands[len-1].name` -/
+def lastNameGv (gv : Bool) (ops : List Node) : R Name := do
+  let lastOp ← pyGet ops (-1)
+  (if gv then symToGv lastOp else lastOp).name
+
 /-! ### text -/
 
 def commaJoinRev (l : List Str) : Str := joinWith (S ", ") l.reverse
@@ -154,8 +159,7 @@ mutual
       else do
         let gv ← isListFn name
         if name == Name.s (S "sound") then do
-          let modif ← (pyGet ops (-1))
-          let mname ← (if gv then symToGv modif else modif).name
+          let mname ← lastNameGv gv ops           -- modif.name
           let l ← lingoStrsButLast ops ind
           pure (.s (S "sound " ++ mname.str ++ S " " ++ commaJoinRev l))
         else do
